@@ -145,12 +145,14 @@ def real_failures(chk, rounds):
     from implrun import strip_ansi
 
     for r in range(rounds):
-        how = ["exit 3", "kill -KILL $$", "kill -SEGV $$", "kill -TERM $$"][r % 4]
+        # the last two: the task removes its own output directory (so that nothing can be recorded into it afterwards)
+        # and then fails / succeeds -- with options declared, so that Conductor has something to write there (D31)
+        how = ["exit 3 #", "kill -KILL $$ #", "kill -SEGV $$ #", "kill -TERM $$ #", 'rm -rf "$COND_OUT"; exit 3 #', 'rm -rf "$COND_OUT"; exit 0 #'][r % 6]
         jobs = [None, "2"][r % 2]
         par = jobs is not None
         mark = "touch $COND_OUT/ran"
         cond = (
-            'run_experiment(name="k", run=%r, parallelizable=%s)\n' % (how, par)
+            'run_experiment(name="k", run=%r, parallelizable=%s, options={"x": 1})\n' % (how, par)
             + 'run_command(name="dep", run=%r, deps=[":k"], parallelizable=%s)\n' % (mark, par)
             + 'run_command(name="ind", run=%r, parallelizable=%s)\n' % (mark, par)
             + 'run_command(name="top", run=%r, deps=[":dep", ":ind"])\n' % mark
@@ -292,7 +294,7 @@ def run_prop(prop, tier, seed, replay=None, extra_oracles=(), extra_part=None, e
         cases = cases[len(cases) // 4:]
     run_cases(chk, cases, oracles)
     if prop in ("C03", "C01"):
-        real_failures(chk, 4 if tier == "quick" else 24)
+        real_failures(chk, 6 if tier == "quick" else 24)
         from reaper_util import unrelated_child
 
         for hrc, trc in ((0, 3), (5, 0)):
